@@ -104,6 +104,7 @@ def showLens (l : Lens) : String := s!"buf {l.save} {l.read} {l.write} {l.reserv
 
 def showPanic : Panic → String
   | .sliceBounds => "panic(slice bounds)" | .indexRange => "panic(index)" | .outsideReceived => "reads outside the received bytes"
+  | .allocRange => "panic(allocation size out of range)"
   | .env => "env"
 
 /-- One model step: the new state, what the model expects to be printed, and coverage tags. -/
